@@ -406,6 +406,40 @@ fn gradient_tie_case(rng: &mut Rng) -> Case {
     Case { img, class: "gradient-tie-fast".into(), enc, input, opts }
 }
 
+/// Cases for the hand-over between the two evaluators of the fast path on images that need a big PLTE (so that the size
+/// of the chunks besides IDAT is hundreds of bytes): an unsorted palette of 120-250 colours (the sorted variant is
+/// evaluated, so a result is in hand), content in which a filter of the second evaluator beats None / Bigrams by anything
+/// from a few bytes to more than the palette's size - a bound or comparison that mixes IDAT-only and whole-file sizes
+/// loses exactly the trials that win by less than that.
+fn indexed_handoff_case(rng: &mut Rng) -> Case {
+    use crate::img::*;
+    let n = rng.range(120, 250) as usize;
+    let palette: Vec<[u8; 4]> = (0..n).map(|_| [rng.byte(), rng.byte(), rng.byte(), if rng.chance(1, 6) { rng.byte() } else { 255 }]).collect();
+    let (w, h) = (rng.range(24, 64) as u32, rng.range(24, 64) as u32);
+    let noise = *rng.choose(&[0u64, 5, 15, 30, 50, 70, 90]);
+    let (dx, dy) = (rng.range(1, 5) as usize, rng.range(0, 7) as usize);
+    let mut samples = Vec::with_capacity((w * h) as usize);
+    for y in 0..h as usize {
+        for x in 0..w as usize {
+            let v = if rng.below(100) < noise { rng.below(n as u64) as usize } else { (x * dx + y * dy) % n };
+            samples.push(v as u16);
+        }
+    }
+    let g = Grid { w, h, ct: 3, depth: 8, palette, trns: None, samples };
+    let img = g.pack(false);
+    let enc = EncOpts { level: 1, idat_parts: 1, ..Default::default() };
+    let input = img.encode_png(rng, &enc);
+    let mut opts = gen_opts(rng, Profile::Lossless, false);
+    opts.filter = (0..10u8).filter(|f| *f == 0 || rng.chance(3, 4)).collect();
+    opts.fast_evaluation = true;
+    opts.deflate = Ok(*rng.choose(&[3u8, 5, 6, 7]));
+    opts.interlace = Some(0);
+    opts.palette_reduction = true;
+    opts.idat_recoding = true;
+    opts.strip = HStrip::None;
+    Case { img, class: format!("indexed-handoff noise{}", noise), enc, input, opts }
+}
+
 /// Cases for the slow compressor: few colours kept at a high colour depth (reductions off), where Zopfli and
 /// libdeflate differ by several percent and the best filter is not the first one tried, so that a pruning decision
 /// taken on anything but the trial's own final size shows up as a prune the model does not allow
@@ -459,6 +493,9 @@ pub fn corr(ctx: &mut Ctx) {
         } else if rng.chance(1, 5) {
             st.count("gradient_tie_cases");
             gradient_tie_case(&mut rng)
+        } else if rng.chance(1, 6) {
+            st.count("indexed_handoff_cases");
+            indexed_handoff_case(&mut rng)
         } else {
             gen_case(&mut rng, Profile::Any, ctx.tier_thorough, 17)
         };
